@@ -31,6 +31,7 @@ type c07Variant struct {
 	PoolSeed    uint64            `json:"pool_seed,omitempty"`
 	Prelude     [][]string        `json:"prelude,omitempty"` // earlier invocations in the same process
 	PreludeWd   []string          `json:"prelude_wd,omitempty"` // earlier invocation i made through sdk.RunThriftgoAsSDK with this working directory
+	Clock       int64             `json:"clock_offset,omitempty"` // the run starts this many nanoseconds after the baseline's wall-clock instant, with another pid
 	SdkWd       string            `json:"sdk_wd,omitempty"`     // the observed invocation is sdk.RunThriftgoAsSDK(SdkWd, ...); its baseline is the same call with nothing before it
 }
 
@@ -92,6 +93,10 @@ func (p *c07Pair) spec(v *c07Variant) *simrt.Spec {
 	sp.Strategy = v.Strategy
 	if sp.Strategy == "" {
 		sp.Strategy = "rtb"
+	}
+	if v.Clock != 0 {
+		sp.ClockOffset = v.Clock
+		sp.Pid = 1000 + int(uint64(v.Clock)%30000)
 	}
 	sp.Parallelism = v.Parallelism
 	if sp.Parallelism == 0 {
@@ -347,11 +352,11 @@ func c07Check(a *artefacts, tier string, seed uint64, replay string) int {
 			pair.Stale[rel] = old
 		}
 		vars := []*c07Variant{
-			{Name: "maps-reversed+stale-output", MapMode: "reversed", Strategy: "rtb", Parallelism: 1, Stale: true},
+			{Name: "maps-reversed+stale-output+later", MapMode: "reversed", Strategy: "rtb", Parallelism: 1, Stale: true, Clock: c07Later(pr)},
 			{Name: "maps-random+schedule+parallelism", MapMode: "random", MapSeed: pr.Uint64(), Strategy: "random", SchedSeed: pr.Uint64(), Parallelism: 2 + pr.Intn(15), PoolSeed: pr.Uint64()},
-			{Name: "after-other-invocations-in-the-same-process", MapMode: "sorted", Strategy: "rtb", Parallelism: 1, Prelude: c07Prelude(pr, pair)},
+			{Name: "after-other-invocations-in-the-same-process", MapMode: "sorted", Strategy: "rtb", Parallelism: 1, Prelude: c07Prelude(pr, pair), Clock: c07Later(pr)},
 			{Name: "other-output-dir+stale-output", MapMode: "random", MapSeed: pr.Uint64(), Strategy: "pct", SchedSeed: pr.Uint64(), Parallelism: 1 + pr.Intn(16), OutDir: []string{"/elsewhere/deep/o2", "/work/gen-out", "/zq7.o", "/srv/proj.gopath/gen", "/data/v1.golden"}[pr.Intn(5)], Stale: true},
-			{Name: "maps-random-2", MapMode: "random", MapSeed: pr.Uint64(), Strategy: "rtb", Parallelism: 1},
+			{Name: "maps-random-2+later", MapMode: "random", MapSeed: pr.Uint64(), Strategy: "rtb", Parallelism: 1, Clock: c07Later(pr)},
 			{Name: "schedule-only", MapMode: "sorted", Strategy: "random", SchedSeed: pr.Uint64(), Parallelism: 16, PoolSeed: pr.Uint64()},
 			{Name: "maps-random-3+stale", MapMode: "random", MapSeed: pr.Uint64(), Strategy: "pct", SchedSeed: pr.Uint64(), Parallelism: 8, Stale: true},
 			{Name: "maps-random-4", MapMode: "random", MapSeed: pr.Uint64(), Strategy: "random", SchedSeed: pr.Uint64(), Parallelism: 3},
@@ -646,6 +651,7 @@ func c07Isolate(a *artefacts, f *c07Found) []*c07Found {
 	try(func(w *c07Variant) { w.Prelude, w.PreludeWd = nil, nil })
 	try(func(w *c07Variant) { w.PreludeWd = nil })
 	try(func(w *c07Variant) { w.Stale = false })
+	try(func(w *c07Variant) { w.Clock = 0 })
 	try(func(w *c07Variant) { w.OutDir = "" })
 	try(func(w *c07Variant) { w.Strategy, w.SchedSeed, w.PoolSeed = "rtb", 0, 0 })
 	try(func(w *c07Variant) { w.Parallelism = 1 })
@@ -663,6 +669,9 @@ func c07Isolate(a *artefacts, f *c07Found) []*c07Found {
 		}
 		if v.OutDir != "" {
 			d = append(d, "output-dir")
+		}
+		if v.Clock != 0 {
+			d = append(d, "wall-clock")
 		}
 		if v.Strategy != "rtb" && v.Strategy != "" {
 			d = append(d, "schedule")
@@ -999,4 +1008,17 @@ func c07SdkVariant(r *simrt.Rand, p *c07Pair) *c07Variant {
 		v.PreludeWd = append(v.PreludeWd, wd)
 	}
 	return v
+}
+
+// c07Later: two runs of a command never happen at the same instant: the other run starts between
+// a second and about three years after the baseline.
+func c07Later(r *simrt.Rand) int64 {
+	switch r.Intn(4) {
+	case 0:
+		return int64(time.Second) * int64(1+r.Intn(5))
+	case 1:
+		return int64(time.Minute) * int64(1+r.Intn(600))
+	default:
+		return int64(time.Hour) * int64(1+r.Intn(26000))
+	}
 }
